@@ -170,7 +170,9 @@ def main(ctx, args):
                 if s["exp"]["msg"] == "wfail":
                     gst["guarded"] += 1
         if r["status"] == "mismatch":
-            if r["cmd"]["k"] in ("w", "wq", "x", "xa") or r["field"] == "disk":
+            # with autowrite on, leaving a modified buffer (quit, edit, switch) writes it: a divergence there is about the guards too
+            auto = isinstance(r.get("expected"), dict) and r["expected"].get("aw") and r["cmd"]["k"] in ("q", "e", "b")
+            if r["cmd"]["k"] in ("w", "wq", "x", "xa") or r["field"] == "disk" or auto:
                 gst["own"] += 1
                 ctx.violation("after %r (step %d of seed %s, history %s): %s" %
                               (r["typed"], r["step"], r["seed"], r["history"][-5:-1], r["why"]),
